@@ -21,6 +21,10 @@ pub enum Op {
     Write { class: u8, size: usize, compress: bool },
     /// write the same bytes as earlier object #j again (same encoding key)
     Rewrite(usize),
+    /// write, as a new object, the stored IMAGE of earlier object #j: form 0 = the single-chunk mode-N BLTE file
+    /// of its bytes (what the storage itself builds), 1 = the ZLib one, 2 = a local header + the mode-N image,
+    /// 3 = the 16 bytes of its encoding key, 4 = the 16 bytes of its content key (MD5 of the plain bytes)
+    WriteImageOf { j: usize, form: u8 },
     Read(usize),
     ReadAll,
     Query(usize),
@@ -148,7 +152,7 @@ impl Scenario for Store {
         "exploration"
     }
     fn rule(&self) -> &'static str {
-        "Seeded histories (2-15 ops) of write/read/read-all/query/query-absent/remove/flush/reopen on three real front ends over one sandbox directory: DynamicContainer, Installation, and a bare ArchiveManager in each compression mode (None/ZLib/LZ4). Payload classes: random, compressible, empty, 1 byte, starting with 'BLTE', 'BLTE' at offset 0x1E, a complete nested BLTE file, a valid local header followed by BLTE, zeros; size patterns large-then-small / shrinking / growing / equal / doubling (1 B - 256 KiB). After EVERY op the latest object and one older object are read back and compared byte for byte with a map model; all objects at the end; reopen = drop + fresh instance on the same directory. Non-trivial = >= 2 state-changing ops; distinct = hash of (config, ops, observed results)."
+        "Seeded histories (2-15 ops) of write/read/read-all/query/query-absent/remove/flush/reopen on three real front ends over one sandbox directory: DynamicContainer, Installation, and a bare ArchiveManager in each compression mode (None/ZLib/LZ4). Payload classes: random, compressible, empty, 1 byte, starting with 'BLTE', 'BLTE' at offset 0x1E, a complete nested BLTE file, a valid local header followed by BLTE, zeros, and (op write_image_of) the stored IMAGE of an object written EARLIER in the same run - its mode-N or ZLib single-chunk BLTE file, a local header + that image, its 16-byte encoding key, its 16-byte content key; size patterns large-then-small / shrinking / growing / equal / doubling (1 B - 256 KiB). After EVERY op the latest object and one older object are read back and compared byte for byte with a map model; all objects at the end; reopen = drop + fresh instance on the same directory. Non-trivial = >= 2 state-changing ops; distinct = hash of (config, ops, observed results)."
     }
     fn assumptions(&self) -> Vec<&'static str> {
         vec![
@@ -248,6 +252,10 @@ impl Scenario for Store {
                 5 => Op::Remove(rng.usize_below(nobj.max(1))),
                 6 => Op::Flush { bucket: if rng.chance(1, 2) { None } else { Some(rng.below(16) as u8) } },
                 7 => Op::Reopen,
+                8 if rng.chance(1, 2) => {
+                    nobj += 1;
+                    Op::WriteImageOf { j: rng.usize_below((nobj - 1).max(1)), form: rng.below(5) as u8 }
+                }
                 _ => Op::Rewrite(rng.usize_below(nobj.max(1))),
             };
             ops.push(op);
@@ -381,6 +389,7 @@ async fn run(case: &Case, ctx: &mut Ctx) -> Option<Violation> {
         let name = match op {
             Op::Write { .. } => "write",
             Op::Rewrite(_) => "rewrite",
+            Op::WriteImageOf { .. } => "write_image_of",
             Op::Read(_) => "read",
             Op::ReadAll => "read_all",
             Op::Query(_) => "query",
@@ -391,8 +400,27 @@ async fn run(case: &Case, ctx: &mut Ctx) -> Option<Violation> {
         };
         ctx.obs(name.as_bytes());
         match op {
-            Op::Write { .. } | Op::Rewrite(_) => {
+            Op::Write { .. } | Op::Rewrite(_) | Op::WriteImageOf { .. } => {
                 let (class, compress, data) = match op {
+                    Op::WriteImageOf { j, form } if !objs.is_empty() => {
+                        let o = &objs[*j % objs.len()];
+                        let image = blte_of(&o.data, CompressionMode::None).unwrap_or_else(|| o.data.clone());
+                        let data = match form % 5 {
+                            0 => image,
+                            1 => blte_of(&o.data, CompressionMode::ZLib).unwrap_or(image),
+                            2 => {
+                                let ek = *EncodingKey::from_data(&image).as_bytes();
+                                let h = cascette_client_storage::storage::local_header::LocalHeader::new(ek, image.len() as u32, 0);
+                                let mut v = h.to_bytes().to_vec();
+                                v.extend_from_slice(&image);
+                                v
+                            }
+                            3 => o.ekey.to_vec(),
+                            _ => cascette_crypto::ContentKey::from_data(&o.data).as_bytes().to_vec(),
+                        };
+                        ctx.count("writes_of_an_earlier_objects_image");
+                        (&6u8, &false, data)
+                    }
                     Op::Write { class, size, compress } => (class, compress, make_payload(*class, *size, ((i as u64 + 1) << 24) | (*size as u64 & 0xFF_FFFF))),
                     Op::Rewrite(j) if !objs.is_empty() => {
                         let o = &objs[*j % objs.len()];
